@@ -1,7 +1,10 @@
 package simkafka
 
 import (
+	"bytes"
 	"fmt"
+	"strconv"
+	"strings"
 
 	"github.com/Shopify/sarama"
 
@@ -21,7 +24,7 @@ func (cl *Cluster) produceVariants(r *Req, req *sarama.ProduceRequest) []gx.Vari
 	for _, f := range cl.ProduceFaults {
 		f := f
 		switch {
-		case partitionFaults[f]:
+		case partitionFaults[f] || strings.HasPrefix(f, "code"):
 			if f == "moved" && len(cl.Brokers) < 2 {
 				continue
 			}
@@ -106,6 +109,13 @@ func (cl *Cluster) doProduce(r *Req, req *sarama.ProduceRequest, batches []saram
 			}
 		case "missing":
 			v.Answered = false
+		default:
+			// "code<N>": the partition is answered with Kafka error code N, nothing is appended
+			if strings.HasPrefix(f, "code") {
+				if n, err := strconv.Atoi(f[4:]); err == nil && v.Err == sarama.ErrNoError {
+					v.Err = sarama.KError(n)
+				}
+			}
 		case "drop", "drop-appended":
 			v.Answered = false
 		}
@@ -188,6 +198,9 @@ func (p *Partition) noteBatch(b sarama.VerifBatch, base int64) {
 func RecID(key, value []byte) string {
 	if len(value) == 0 && len(key) > 0 {
 		return string(key)
+	}
+	if i := bytes.IndexByte(value, '|'); i >= 0 {
+		return string(value[:i]) // a value padded to a given size: "<id>|xxxx..."
 	}
 	return string(value)
 }
